@@ -250,6 +250,10 @@ def run_cfg(chk, facts, cfg):
             chk.ob(key, 'E6 NaN-class', '%s never returns Ok with a NaN bound' % label, True, '', where)
 
     # ---- D4 error table on the state-based producers
+    # D4 needs the state layouts: losing them is reported, not skipped
+    chk.anchor('state layouts (error table of the state-based producers)' + sfx, sm if sm.ok() else None)
+    if not sm.ok():
+        chk.notes.extend(sm.problems)
     if sm.ok():
         S1, S2, N = T.sym('S1'), T.sym('S2'), T.sym('n')
         inner = sm.arith_state(S1, S2, N)
@@ -257,7 +261,10 @@ def run_cfg(chk, facts, cfg):
         for nm in ('Geometric', 'Harmonic', 'Paired'):
             adt = sm.adt(nm)
             if adt:
-                prods.append((nm, adt, sm.wrapper_state(adt, inner)))
+                try:
+                    prods.append((nm, adt, sm.wrapper_state(adt, inner)))
+                except Unsupported as e:
+                    chk.ob('%s:errors:%s:layout%s' % (PID, nm, sfx), 'layout', '%s wraps one statistics state' % nm, False, str(e), adt['span'][0])
         for nm, adt, st in prods:
             fn = facts.inherent(adt['path'], 'ci_mean')
             if not chk.anchor('%s::ci_mean%s' % (nm, sfx), fn):
